@@ -295,7 +295,9 @@ func (fc *funcContext) translateExpr(expr ast.Expr) *expression {
 				return fc.formatExpr("new %1s(-%2h, -%2l)", fc.typeName(t), e.X)
 			case isComplex(basic):
 				return fc.formatExpr("new %1s(-%2r, -%2i)", fc.typeName(t), e.X)
-			case isUnsigned(basic):
+			case isInteger(basic):
+				// Negating the most negative value overflows and must wrap around,
+				// for signed types as well as for unsigned ones.
 				return fc.fixNumber(fc.formatExpr(negationFormat(e.X), e.X), basic)
 			default:
 				return fc.formatExpr(negationFormat(e.X), e.X)
